@@ -47,6 +47,8 @@ type jSub struct {
 	CancelOnFail bool     `json:"cancel_on_fail,omitempty"`
 	CancelAt     int64    `json:"cancel_at"` // -1: never
 	SendLatency  int64    `json:"send_latency,omitempty"`
+	// AliasPrev: Topics is the previous subscriber's list plus one topic, built by append on the same array
+	AliasPrev bool `json:"alias_prev,omitempty"`
 }
 
 type jPub struct {
@@ -350,6 +352,7 @@ func runJoe(t *testing.T, sc *jScenario) (tr *jTrace) {
 		base = time.Now()
 
 		var wgSubs, wgPubs, wgMisc sync.WaitGroup
+		builtTopics := make([][]string, len(sc.Subs))
 		for i := range sc.Subs {
 			spec := &sc.Subs[i]
 			st := &jSubTrace{Spec: spec}
@@ -375,7 +378,22 @@ func runJoe(t *testing.T, sc *jScenario) (tr *jTrace) {
 				}
 			}
 			st.Client = cl
-			sub := sse.Subscription{Client: cl, Topics: append([]string(nil), spec.Topics...)}
+			// Joe gets its own slices (the scenario's lists are what the oracles read); they have spare
+			// room, and an "alias" list is the previous one extended in place
+			var tp []string
+			if spec.AliasPrev && i > 0 && len(builtTopics[i-1]) > 0 && len(spec.Topics) > len(builtTopics[i-1]) {
+				prev := builtTopics[i-1]
+				tp = append(prev[:len(prev):cap(prev)], spec.Topics[len(prev):]...)
+			} else {
+				tp = append(make([]string, 0, len(spec.Topics)+4), spec.Topics...)
+			}
+			builtTopics[i] = tp
+			var client sse.MessageWriter = cl
+			if i%3 == 2 {
+				// a MessageWriter that is a struct value with func and slice fields (not comparable)
+				client = funcClient{send: cl.Send, flush: cl.Flush, pad: []int{i}, name: cl.Name}
+			}
+			sub := sse.Subscription{Client: client, Topics: tp}
 			if spec.LastIDSet {
 				sub.LastEventID = sse.ID(spec.LastID)
 			}
@@ -495,7 +513,7 @@ func runJoe(t *testing.T, sc *jScenario) (tr *jTrace) {
 
 var errShutdownCause = errors.New("injected shutdown-context cause")
 
-var allTopics = append([]string{"a", "b", "c", sse.DefaultTopic}, func() []string {
+var allTopics = append([]string{"a", "b", "c", sse.DefaultTopic, "a,b", "b,a", "a b", "a\x00b", "a|b"}, func() []string {
 	var u []string
 	for i := 0; i < 20; i++ {
 		u = append(u, "topic-"+strconv.Itoa(i))
@@ -504,6 +522,19 @@ var allTopics = append([]string{"a", "b", "c", sse.DefaultTopic}, func() []strin
 }()...)
 
 var errSubscriberCause = errors.New("subscriber's own cancellation cause")
+
+// funcClient is a MessageWriter held by value whose type is not comparable.
+type funcClient struct {
+	send  func(*sse.Message) error
+	flush func() error
+	pad   []int
+	name  string
+}
+
+func (f funcClient) Send(m *sse.Message) error { return f.send(m) }
+func (f funcClient) Flush() error              { return f.flush() }
+
+func (f funcClient) ClientName() string { return f.name }
 
 // valReplayer is a Replayer held by value.
 type valReplayer struct{ r *mon.RecReplayer }
